@@ -92,13 +92,13 @@ def kani_second_opinion(pid, rc):
     t0 = time.time()
     env = dict(os.environ, CARGO_NET_OFFLINE='true', CARGO_TARGET_DIR='/verif/.cache/kani-target')
     try:
-        p = subprocess.run(['cargo', 'kani', '--harness', 'conversion_sums_match_event_log'], cwd='/verif/kani', env=env, capture_output=True, text=True, timeout=3000)
+        p = subprocess.run(['cargo', 'kani', '--harness', 'conversion_sums_match_event_log'], cwd=os.path.join(os.path.dirname(os.path.dirname(os.path.abspath(__file__))), 'kani'), env=env, capture_output=True, text=True, timeout=3000)
         out = p.stdout + p.stderr
     except Exception as e:
         out = 'kani did not run: %r' % (e,)
     ok_ = 'VERIFICATION:- SUCCESSFUL' in out and '1 of 1 cover properties satisfied' in out
     m = re.search(r'\*\* (\d+) of (\d+) failed', out)
-    fn = os.path.join('/verif/evidence', pid + '.json')
+    fn = os.path.join(R.VERIF, 'evidence', pid + '.json')
     ev = json.load(open(fn))
     ev['coverage']['kani_leaf_harness'] = {'harness': 'ats-kani::conversion_sums_match_event_log', 'bounds': 'event log <= 2 events, unwind 4 with unwinding assertions, u64 amounts', 'verdict': 'SUCCESSFUL' if ok_ else 'NOT SUCCESSFUL',
                                            'checks_failed_of_total': m.groups() if m else None, 'cover_witness_satisfied': '1 of 1 cover properties satisfied' in out, 'wall_s': round(time.time() - t0, 1)}
